@@ -137,7 +137,7 @@ KERNELS = [unit_kernel(n, LIM[n]) for n in ["years", "months", "weeks", "days", 
                lambda a, o: And(o.is_some,
                                 opt_is(o.some[0], fits(sd_total(a) * a[2]), lambda r: sd_is(r, sd_total(a) * a[2])),
                                 sd_is(o.some[1], sat(sd_total(a) * a[2]))))]),
-    K("c12::k_sd_div", pre=lambda a: sd_ok(a), tier="thorough", timeout=1200,
+    K("c12::k_sd_div", pre=lambda a: sd_ok(a), tier="deep", timeout=1200,
       claims=[("checked_div(i32) == exact quotient truncated toward zero; None iff divisor 0 or unrepresentable",
                lambda a, o: And(o.is_some, opt_is(o.some, And(a[2] != 0, fits(tdiv(sd_total(a), a[2]))), lambda r: sd_is(r, tdiv(sd_total(a), a[2])))))]),
     K("c12::k_sd_neg_abs", pre=lambda a: sd_ok(a),
